@@ -130,7 +130,7 @@ def run_shard(ctx):
     def test(case):
         check_case(ctx, case)
 
-    runner.drive(ctx, test, ctx.n(3200, 60000))
+    runner.drive(ctx, test, ctx.n(12800, 160000))
 
 
 def replay(ctx, case):
